@@ -841,7 +841,7 @@ Example ex_pchk_k0 :
   pchk_chk toy toy_srand 20 0 2 1 5 1 = OutOfBounds /\ exists x, gpchk toy toy_srand 20 0 2 1 5 1 = Some x.
 Proof. split; [vm_compute; reflexivity|eexists; vm_compute; reflexivity]. Qed.
 
-(* ---------- no axiom ---------- *)
+(* ---------- Print Assumptions: every theorem below is closed under the global context ---------- *)
 Print Assumptions pchk_chk_refines.
 Print Assumptions fill_col_chk_refines.
 Print Assumptions fill_col_chk_safe.
